@@ -118,7 +118,17 @@ def render_file(f):
                 pass
             else:
                 ex = _cmp_expr(s["op"], left, getter(e["site"]), e.get("reflect", False), key, e.get("cop", "eq"))
-            if loop:
+            if loop and e.get("fin"):
+                # the comparison sits in a finally block, whose body the compiler emits twice: even iterations reach the call on the
+                # normal path, odd ones on the exceptional path - two instructions, one call in the source
+                L.append(f"{ind}for _k, _v in enumerate([{', '.join(V.expr(x) for x in e['vals'])}]):")
+                L.append(f"{ind}    try:")
+                L.append(f"{ind}        try:")
+                L.append(f"{ind}            if _k % 2:")
+                L.append(f"{ind}                raise KeyError(_k)")
+                L.append(f"{ind}        finally:")
+                ind2 = ind + "            "
+            elif loop:
                 L.append(f"{ind}for _v in [{', '.join(V.expr(x) for x in e['vals'])}]:")
                 ind2 = ind + "    "
             else:
@@ -127,8 +137,18 @@ def render_file(f):
             if e.get("style", "assert") == "assert":
                 L.append(f"{ind2}assert {ex}{trail}")
                 L.append(f"{ind2}ok({e['eid']!r})")
+            elif loop and e.get("fin"):
+                # evaluated in the finally body itself (a lambda would be a code object of its own, compiled once)
+                L.append(f"{ind2}try:")
+                L.append(f"{ind2}    _r = {ex}{trail}")
+                L.append(f"{ind2}except BaseException as _x:")
+                L.append(f"{ind2}    _r = _x")
+                L.append(f"{ind2}rec_value({e['eid']!r}, _r)")
             else:
                 L.append(f"{ind2}rec({e['eid']!r}, lambda: {ex}){trail}")
+            if loop and e.get("fin"):
+                L.append(f"{ind}    except KeyError:")
+                L.append(f"{ind}        pass")
         elif t == "cmp2":
             # two call sites on one line
             parts = []
